@@ -122,11 +122,17 @@ pub fn run(rep: &mut Report, which: Which, block_dev: bool) {
                 }
                 if sc.seed_output {
                     extra.push("--seed-output".into());
+                    // both flags together must behave like --seed-output alone
+                    if sci % 2 == 1 {
+                        extra.push("--force-create".into());
+                    }
                 } else if sc.prior.is_some() {
                     extra.push("--force-create".into());
                 }
                 let archive_arg = if use_http {
-                    http.server.arm(&arch.bytes, Script { faults: vec![], splits: vec![], keep_alive: true });
+                    // every 40th HTTP scenario: the bodies are flushed byte by byte (no failure involved)
+                    let splits: Vec<usize> = if sci % 40 == 3 { (1..40).collect() } else { vec![] };
+                    http.server.arm(&arch.bytes, Script { faults: vec![], splits, keep_alive: true });
                     http.server.url()
                 } else {
                     apath.to_str().unwrap().to_string()
